@@ -14,9 +14,10 @@ import (
 )
 
 type printer struct {
-	p   *Prog
-	buf bytes.Buffer
-	pkg int
+	p      *Prog
+	buf    bytes.Buffer
+	pkg    int
+	nlabel int // labels are numbered per file in print order
 }
 
 // usesErrors: some body of package pk calls errors.New (importing "errors" makes packages.Load parse and
@@ -189,35 +190,87 @@ func (pr *printer) stmt(s *Stmt) {
 		s.end = w.Len()
 		w.WriteString("\n")
 	case "group":
+		// A labeled statement `L7: for … {` is one more grouping node around the statement (ast.LabeledStmt):
+		// the resolver's traversals must enter it.  go/types rejects an unused label, so the first block starts
+		// with a use that holds no assignment and no return (no event for the model).
+		use := ""
+		if s.Label {
+			pr.nlabel++
+			l := fmt.Sprintf("L%d", pr.nlabel)
+			fmt.Fprintf(w, "%s:\n", l)
+			switch s.Head {
+			case "for", "range":
+				use = "if n > 100 {\ncontinue " + l + "\n}\n"
+			case "switch", "typeswitch", "select":
+				use = "if n > 100 {\nbreak " + l + "\n}\n"
+			default:
+				use = "if n > 100 {\ngoto " + l + "\n}\n"
+			}
+		}
+		block := func(i int) {
+			if i == 0 {
+				w.WriteString(use)
+			}
+			pr.stmts(s.Blocks[i])
+		}
 		switch s.Head {
 		case "if":
 			w.WriteString("if n > 0 {\n")
-			pr.stmts(s.Blocks[0])
+			block(0)
 			w.WriteString("}\n")
 		case "ifelse":
 			w.WriteString("if n > 1 {\n")
-			pr.stmts(s.Blocks[0])
+			block(0)
 			w.WriteString("} else {\n")
-			pr.stmts(s.Blocks[1])
+			block(1)
 			w.WriteString("}\n")
-		case "switch":
-			w.WriteString("switch n {\n")
-			for i, b := range s.Blocks {
-				if i == len(s.Blocks)-1 && i > 0 {
-					w.WriteString("default:\n")
-				} else {
-					fmt.Fprintf(w, "case %d:\n", i)
+		case "elseif": // the else branch is itself an *ast.IfStmt; the last block is the final else
+			for i := range s.Blocks {
+				switch {
+				case i == 0:
+					w.WriteString("if n > 9 {\n")
+				case i == len(s.Blocks)-1 && i > 1:
+					w.WriteString("} else {\n")
+				default:
+					fmt.Fprintf(w, "} else if n > %d {\n", 9-i)
 				}
-				pr.stmts(b)
+				block(i)
+			}
+			w.WriteString("}\n")
+		case "switch", "typeswitch", "select":
+			switch s.Head {
+			case "switch":
+				w.WriteString("switch n {\n")
+			case "typeswitch":
+				w.WriteString("switch any(n).(type) {\n")
+			default:
+				w.WriteString("select {\n")
+			}
+			for i := range s.Blocks {
+				switch {
+				case i == len(s.Blocks)-1 && i > 0:
+					w.WriteString("default:\n")
+				case s.Head == "switch":
+					fmt.Fprintf(w, "case %d:\n", i)
+				case s.Head == "typeswitch":
+					fmt.Fprintf(w, "case %s:\n", []string{"int", "string", "bool", "error"}[i%4])
+				default:
+					w.WriteString("case <-make(chan int):\n")
+				}
+				block(i)
 			}
 			w.WriteString("}\n")
 		case "for":
 			w.WriteString("for n > 2 {\n")
-			pr.stmts(s.Blocks[0])
+			block(0)
+			w.WriteString("}\n")
+		case "range":
+			w.WriteString("for range []int{1, 2} {\n")
+			block(0)
 			w.WriteString("}\n")
 		default:
 			w.WriteString("{\n")
-			pr.stmts(s.Blocks[0])
+			block(0)
 			w.WriteString("}\n")
 		}
 	}
